@@ -530,7 +530,10 @@ def _parse_schema(
             ):  # Already exists in context
                 # This is a pure reference to an existing schema, don't create duplicate
                 pass
-            elif schema_name and resolved_schema and schema_name not in context.parsed_schemas:
+            elif schema_name and resolved_schema and (
+                schema_name not in context.parsed_schemas
+                or context.parsed_schemas[schema_name]._max_depth_exceeded_marker  # re-parse of a cut-off alias
+            ):
                 context.parsed_schemas[schema_name] = resolved_schema
 
             return resolved_schema
